@@ -839,7 +839,20 @@ class Exec(object):
                 return
         if isinstance(o, PDict):
             self.note_write(o, stored=v)
-            o.d[self.dict_key(idx)] = v
+            try:
+                k = self.dict_key(idx)
+            except Unsupported:
+                # which row is written is beyond the model, THAT shared state is written is not: if the contract's frame
+                # does not allow it, that obligation fails here (the rest of the path stays undecided)
+                origin = getattr(o, "origin", None)
+                topc = self.engine.contracts.get(self.top_fq) if getattr(self, "top_fq", None) else None
+                if origin is not None and origin.startswith("module:") and topc is not None and len(self.frames) == 1:
+                    allowed = set(topc.get("modifies") or [])
+                    if origin not in allowed and not any(origin.startswith(a + ".") for a in allowed):
+                        self.ctx.emit("frame", "frame/writes-outside-modifies", False, line,
+                                      note="writes to %s (under a key the model cannot follow)" % origin)
+                raise
+            o.d[k] = v
             return
         if isinstance(o, Obj):
             m = self.find_method(o.cls, "__setitem__")
